@@ -207,9 +207,12 @@ Section Main.
   Lemma eff_reserve : forall cur n m', wf_manifest cur ->
     build_manifest cur (ReserveFragments n) = Ok m' -> result_ok cur (ReserveFragments n) m' (EReserve n).
   Proof.
-    intros cur n m' Hw Hb. rewrite build_reserve in Hb. injection Hb as Hb; subst m'.
+    intros cur n m' Hw Hb.
     destruct (same_frags_mk cur (m_indices cur) Hw) as [L [C [M W]]]. pose proof Hw as [_ [_ [Hs Hm]]].
     set (m := mk_manifest cur (m_schema cur) (m_frags cur) (m_indices cur)) in *.
+    assert (Em' : m' = with_maxfid m (Some (match m_maxfid m with Some x => x | None => 0 end + n))).
+    { pose proof (build_reserve cur n) as Q. fold m in Q. congruence. }
+    clear Hb. subst m'.
     assert (W' : wf_manifest (with_maxfid m (Some (match m_maxfid m with Some x => x | None => 0 end + n)))).
     { destruct W as [W1 [W2 [W3 W4]]]. split; [exact W1 | split; [exact W2 | split; [exact W3|]]].
       unfold wf_maxfid in *. cbn [with_maxfid m_maxfid m_frags]. intros f Hf. destruct (m_maxfid m) as [M0|].
